@@ -300,3 +300,15 @@ def subexpressions(e):
     elif isinstance(e, R.ColumnExpressionSequence):
         for a in e.items:
             yield from subexpressions(a)
+
+
+def supported_by(e, engine) -> bool:
+    """Whether every function in an expression / predicate / container declares support for
+    ``engine`` - computed from ``supporting_engine_types`` directly, not through the library's
+    own ``is_supported_by`` (so that a defect there cannot fool the monitor)."""
+    for node in subexpressions(e):
+        if isinstance(node, (R.ColumnFunction, R.PredicateFunction)):
+            types = node.supporting_engine_types
+            if types is not None and not isinstance(engine, tuple(types)):
+                return False
+    return True
